@@ -137,8 +137,14 @@ pub async fn send_appointment(
                 r.start_block,
                 r.signature.clone(),
             );
+            // The signature may not even be decodable. That is as good as no receipt at all.
             let recovered_id = TowerId(
-                cryptography::recover_pk(&receipt.to_vec(), &receipt.signature().unwrap()).unwrap(),
+                cryptography::recover_pk(&receipt.to_vec(), &receipt.signature().unwrap())
+                    .map_err(|_| {
+                        RequestError::DeserializeError(
+                            "Unexpected response body. The appointment receipt contains an invalid signature".to_owned(),
+                        )
+                    })?,
             );
             if recovered_id == tower_id {
                 Ok((r, receipt))
